@@ -33,4 +33,6 @@ def jobs(tier):
             out.append(dict(name='whole_%s_v%d' % (kn, var), src='h_whole.cpp', defs={'HN': 2 if tier == 'quick' else 3, 'KWSEL': kw, 'VAR': var}, entry='h_whole_layout', tus=PT, fp='real', loopmax=2000, maxsteps=80000000,
                             timeout=900 if tier == 'quick' else 7200, opts=['--ctors'],
                             bounds='Parser::parseString of %s with a body of <= %d arbitrary 7-bit bytes (no quote, slash, dash), layout variant %d' % (kn.upper(), 2 if tier == 'quick' else 3, var)))
+    out.append(dict(name='whole_quoted_separators', src='h_whole.cpp', defs={'HN': 2, 'KWSEL': 1, 'VAR': 1}, entry='h_whole_quoted', tus=PT, fp='real', loopmax=2000, maxsteps=80000000, timeout=900 if tier == 'quick' else 7200, opts=['--ctors'],
+                    bounds='GRIDUNIT with two quoted strings (symbolic letter each), separators blank / TAB / comma / line break (symbolic)'))
     return out
